@@ -125,12 +125,17 @@ def run_unit(unit, out, tier, seed):
                 g4 = model_value(L, oname, tup)
                 out.count('model_evaluations')
                 got = {g1, g2, g3, g4}
+                if S.unassigned in tup:
+                    # fifth path: the same cell with the operands that carry the unassigned value simply left unassigned
+                    g5 = model_value(L, oname, tup, skip=S.unassigned)
+                    out.count('model_evaluations_with_unassigned_atoms')
+                    got.add(g5)
                 if got != {want}:
                     linear = (getattr(rsem.FDELinear(), oname)(*tup)
                               if S.base_name == 'FDE' else None)
                     out.violation(
                         'table-cell', dict(logic=name, operator=oname, inputs=list(tup), expected=want,
-                                           truth_table=g1, call=g2, method=g3, value_of=g4),
+                                           truth_table=g1, call=g2, method=g3, value_of=g4, all_paths=sorted(map(str, got))),
                         dict(diag='table-mismatch', family=S.base_name, operator=oname,
                              nb_mix=('N' in tup and 'B' in tup),
                              matches_linear_order=(got == {linear})),
@@ -174,11 +179,13 @@ def run_unit(unit, out, tier, seed):
                                   f'{name}.{oname} differs from base logic {base}')
 
 
-def model_value(L, oname, tup):
+def model_value(L, oname, tup, skip=None):
     from pytableaux.lang import Atomic, Operator
     m = L.Model()
     atoms = [Atomic(i, 0) for i in range(len(tup))]
     for a_, v in zip(atoms, tup):
+        if skip is not None and v == skip:
+            continue
         m.set_atomic_value(a_, v)
     m.finish()
     try:
